@@ -197,3 +197,40 @@ def prove_eq(goal):
     except RecursionError:
         return False, 'recursion'
     return True, list(N.dens.values())
+
+
+def approx_zero(term, tol=1e-7):
+    """is the rational function `term` identically zero up to coefficient tolerance?  (float-derived coefficients:
+    exact rational identity is too strict).  Denominator must reduce to a non-zero constant.  -> (ok, max |coef|)"""
+    N = Normaliser()
+    try:
+        r = N.norm(term)
+        num = N.reduce(r.n)
+    except (TooBig, RecursionError):
+        return None, 'too big'
+    if any(m != () for m in r.d.d):
+        return None, 'non-constant denominator'
+    d0 = float(r.d.d.get((), 0))
+    if d0 == 0: return None, 'zero denominator'
+    worst = max([abs(float(c)) / abs(d0) for c in num.d.values()] + [0.0])
+    return worst <= tol, worst
+
+
+def approx_equal(lhs, rhs, tol=1e-7):
+    """coefficient-wise comparison (relative tolerance) of two polynomial terms with float-derived coefficients"""
+    N = Normaliser()
+    try:
+        a, b = N.norm(lhs), N.norm(rhs)
+        an, bn = N.reduce(a.n), N.reduce(b.n)
+    except (TooBig, RecursionError):
+        return None, 'too big'
+    for r in (a, b):
+        if any(m != () for m in r.d.d): return None, 'non-constant denominator'
+    da, db = float(a.d.d.get((), 0)), float(b.d.d.get((), 0))
+    if da == 0 or db == 0: return None, 'zero denominator'
+    worst = 0.0
+    for m in set(an.d) | set(bn.d):
+        x = float(an.d.get(m, 0)) / da; y = float(bn.d.get(m, 0)) / db
+        rel = abs(x - y) / max(abs(x), abs(y), 1.0)
+        worst = max(worst, rel)
+    return worst <= tol, worst
